@@ -20,6 +20,7 @@ import OFV.Proofs.C13RG
 import OFV.Proofs.C13Mel
 import OFV.Proofs.C13Bose
 import OFV.Proofs.C13Herm2
+import OFV.Proofs.C13Exact
 import Mathlib.Tactic.NormNum
 
 namespace OFV.C13
@@ -300,6 +301,46 @@ theorem spinless_hubbard_sound_spec (tol : Rat) (s t : Nat) (a : HubbardArgs) (h
           a.u * mel s t [(e.1, 1), (e.1, 0), (e.2, 1), (e.2, 0)]) +
       gsumL ((List.range (a.x * a.y)).map fun i => (-a.mu) * mel s t [(i, 1), (i, 0)]) :=
   spinless_hubbard_sound_mel tol s t a hphs hex ht hreg
+
+/-- **exact_regime_of_grid.**  The exact-regime hypothesis `ExactSum` of the soundness theorems holds whenever every
+coefficient of the start value and of every piece lies on a grid `(1/D) ℤ[i]` with `tol · D ≤ 1`: all intermediate
+coefficients of the `+=` fold stay on the grid, and a grid point of modulus `< tol` is zero -/
+theorem exact_regime_of_grid (D : Nat) (hD : 0 < D) (tol : Rat) (htol : tol * tol * ((D : Rat) * D) ≤ 1)
+    (init : Op) (pieces : List Op) (hi : OpOnGrid D init) (hp : ∀ p ∈ pieces, OpOnGrid D p) :
+    ExactSum tol init pieces :=
+  exactSum_of_grid hD htol init pieces hi hp
+
+/-- **hubbard_sound against the Spec, exact-regime hypothesis discharged** (spinless `fermi_hubbard`, every lattice
+size, both boundary conditions): for real `t` and couplings `t, U, μ ∈ (1/D) ℤ[i]` with `tol · D ≤ 1` (all dyadic
+couplings the harness generates, at `EQ_TOLERANCE`) every Spec matrix element of the Model's output is the matrix element
+of the docstring Hamiltonian over the Spec edge set — no hypothesis about the `+=` steps is left -/
+theorem spinless_hubbard_sound_spec_grid (D : Nat) (hD : 0 < D) (tol : Rat) (htol : tol * tol * ((D : Rat) * D) ≤ 1)
+    (s t : Nat) (a : HubbardArgs) (hphs : a.phs = false)
+    (hgt : OnGrid D a.t) (hgu : OnGrid D a.u) (hgmu : OnGrid D a.mu) (ht : a.t.conj = a.t) :
+    den (mel s t) (spinlessFermiHubbard tol a) =
+      gsumL ((edges adjNN a.x a.y a.periodic).map fun e =>
+        (-a.t) * mel s t [(e.1, 1), (e.2, 0)] + (-a.t) * mel s t [(e.2, 1), (e.1, 0)] +
+          a.u * mel s t [(e.1, 1), (e.1, 0), (e.2, 1), (e.2, 0)]) +
+      gsumL ((List.range (a.x * a.y)).map fun i => (-a.mu) * mel s t [(i, 1), (i, 0)]) :=
+  spinless_hubbard_sound_mel tol s t a hphs (spinless_exact_of_grid hD htol a hphs hgt hgu hgmu) ht
+    (hopping_reg_of_grid hD htol hgt)
+
+/-- the same for the spinful model (couplings `t, U, μ, h` on the grid), every term functional `φ` -/
+theorem spinful_hubbard_sound_grid (D : Nat) (hD : 0 < D) (tol : Rat) (htol : tol * tol * ((D : Rat) * D) ≤ 1)
+    (φ : Term → GQ) (a : HubbardArgs) (hphs : a.phs = false)
+    (hgt : OnGrid D a.t) (hgu : OnGrid D a.u) (hgmu : OnGrid D a.mu) (hgh : OnGrid D a.h) (ht : a.t.conj = a.t) :
+    den φ (spinfulFermiHubbard tol a) =
+      gsumL ((edges adjNN a.x a.y a.periodic).map fun e =>
+        ((-a.t) * φ [(2 * e.1, 1), (2 * e.2, 0)] + (-a.t) * φ [(2 * e.2, 1), (2 * e.1, 0)]) +
+        ((-a.t) * φ [(2 * e.1 + 1, 1), (2 * e.2 + 1, 0)] + (-a.t) * φ [(2 * e.2 + 1, 1), (2 * e.1 + 1, 0)])) +
+      gsumL ((List.range (a.x * a.y)).map (spinSiteDen tol φ a)) :=
+  spinful_hubbard_sound' tol φ a (spinful_exact_of_grid hD htol a hphs hgt hgu hgmu hgh) ht
+    (hopping_reg_of_grid hD htol hgt)
+
+/-- non-vacuity of the grid hypotheses at `EQ_TOLERANCE = 1e-8`: quarter-integer couplings -/
+example : GQ.eqTol * GQ.eqTol * (((4 : Nat) : Rat) * (4 : Nat)) ≤ 1 := by
+  simp only [GQ.eqTol]; norm_num
+example : OnGrid 4 (⟨3 / 4, -1 / 2⟩ : GQ) := ⟨3, -2, by norm_num, by norm_num⟩
 
 /-- **hubbard_sound (`bose_hubbard`)**: every lattice size, both boundary conditions, real hopping amplitude, EVERY term
 functional `φ`: the Model's output denotes `-t Σ_⟨ij⟩ (b†_i b_j + b†_j b_i) + V Σ_⟨ij⟩ n_i n_j` over the Spec edge set
